@@ -219,6 +219,16 @@ func rotSections(sc *BitrotScenario, out *core.Outcome) {
 	}
 	secEnd := off
 	pid := st.PID
+	// sections that deliver a datum (a TDT does not), in order: datum k of the unit <-> section
+	var secOfDatum []int
+	for i := range u.Sections {
+		if u.Sections[i].TDT == nil {
+			secOfDatum = append(secOfDatum, i)
+		}
+	}
+	touchedDatum := func(touched []bool, k int) bool {
+		return k >= 0 && k < len(secOfDatum) && touched[secOfDatum[k]]
+	}
 	// index of the unit's first datum in the PID's baseline list
 	firstIdx := -1
 	for k, d := range exp[pid] {
@@ -227,7 +237,7 @@ func rotSections(sc *BitrotScenario, out *core.Outcome) {
 			break
 		}
 	}
-	if firstIdx < 0 {
+	if firstIdx < 0 && len(secOfDatum) > 0 {
 		out.Probe("baseline-mismatch")
 		return
 	}
@@ -282,7 +292,7 @@ func rotSections(sc *BitrotScenario, out *core.Outcome) {
 		allowed := []datumRec{}
 		for k, d := range exp[pid] {
 			if d.unit == [2]int{sc.Stream, sc.Unit} {
-				if touched[k-firstIdx] {
+				if touchedDatum(touched, k-firstIdx) {
 					continue
 				}
 			}
